@@ -238,7 +238,7 @@ theorem execute_noPanic (H : Crypto) (flags : Nat) (ctx : Option Ctx) (unlock lo
       · next s1 tr1 hrun =>
         (try simp only [])
         split
-        · simp
+        · exact finalCheck_noPanic _ _ _ _
         · exact runLock_noPanic p.env p s1.ds s1 _ hpl (spec.2.2 s1 tr1 hrun) rfl hb q
       · next s1 tr1 hrun =>
         split
